@@ -16,6 +16,17 @@ from engines.xh.runner import Obl, PY_PLAIN, VERIF
 PROP = "C07"
 
 
+# Statements written for the mechanisms the property names and the fixtures hardly contain: multi-line string literals and
+# quoted identifiers (the line-break sentinel protects them from re-indentation) inside constructs that pretty printing wraps
+# and indents, with comments next to them.  Always part of the corpus, in both tiers.
+_STRESS = [
+    ("", "SELECT x FROM (SELECT 'l1\nl2' AS x, \"c\nd\" AS y FROM t WHERE z IN ('p\n\nq', 'r')) AS t"),
+    ("", "WITH c AS (SELECT 'a\n  b' AS s /* note */ FROM t) SELECT s, EXISTS(SELECT 1 FROM u WHERE u.v = '\n') AS e FROM c"),
+    ("postgres", "SELECT CASE WHEN a = 'x\ny' THEN (SELECT MAX(b) FROM t WHERE c = 'u\nv') END AS r FROM s /* tail */"),
+    ("duckdb", "SELECT [1, 2], {'k': 'v\nw'}, COALESCE(a, 'n\n') FROM (SELECT a FROM t UNION ALL SELECT 'm\nn') AS q"),
+]
+
+
 def _fixture_statements() -> list[tuple[str, str]]:
     out = []
     for name in ("identity.sql",):
@@ -140,7 +151,7 @@ def obligations(tier: str, seed: int):
     fix = [c for c in _fixture_statements() if len(c[1]) <= 400]
     rnd.shuffle(fix)
     n_fix = 60 if tier == "quick" else 260
-    cands = _greedy_cover(fix, n_fix)
+    cands = list(_STRESS) + _greedy_cover(fix, n_fix)
     if tier != "quick":
         cands += _dialect_statements(3, rnd)
     vetted = vet(cands)
@@ -175,7 +186,8 @@ def obligations(tier: str, seed: int):
     bounds = {
         "layout": "pretty=True; max_text_width: every int >= 0; pad, indent in 0..4; leading_comma, comments: both",
         "flags": "pretty, leading_comma, comments: both; identify in {False, True, 'safe'}; normalize_functions in {'upper','lower',False}",
-        "corpus": f"{len(corpus)} statements drawn (seed-rotated) from tests/fixtures/identity.sql, pretty.sql"
+        "corpus": f"{len(corpus)} statements: {len(_STRESS)} written for the sentinel/comment mechanisms (multi-line literals inside wrapped constructs) + "
+                  "statements drawn (seed-rotated, greedy by node-class coverage) from tests/fixtures/identity.sql, pretty.sql"
                   + ("" if tier == "quick" else " and validate_identity strings of tests/dialects/*.py (<=3 per dialect)"),
         "outside": "trees not in the corpus: the input dimension is sampled from fixtures, only the option space is decided",
         **stats,
